@@ -5,7 +5,7 @@ Real lattices (mid-utterance and final, best path, posteriors, N-best) are dumpe
 API over the decode matrix and validated by TLC with specs/lattice/LatticeTrace.tla against LatticePred.tla;
 LatticeBuildImpl / AStarImpl are model-checked exhaustively (see model_check).
 """
-import json, os, random
+import json, os, random, re
 from vlib import sut, tlc, tracecheck, runner
 from checks import decmatrix
 
@@ -96,6 +96,52 @@ def classify(f):
         return "event:" + clause
 
 
+SYN_WORDS = ["go", "forward", "ten", "meters", "stop", "left", "right", "backward"]
+SYN_SCORE = [{0: -1200, -1: -3100, -2: -7700}, {0: 0, -1: -1, -2: -2}, {0: -50000, -1: -50100, -2: -50250}, {0: -3, -1: -40000, -2: -90000}]
+
+
+def synthetic_dag_cases(ctx, rng, quick, base):
+    """Every DAG of the A* model (AStarImpl: nodes in topological order, any set of forward links with scores from a small
+    set, every node on a start-to-end path) is built as a REAL lattice with the library's constructors and put where the
+    search caches its lattice; best path, posteriors and N-best then run on it through the public calls."""
+    rep = ctx.report
+    dags = []
+    for cfg in (("AStar_export4.cfg",) if quick else ("AStar_export4.cfg", "AStar_export5.cfg")):
+        r = tlc.run("MC_AStar.tla", cfg, SPEC, workers=1, timeout=900, heap="4g")
+        got = re.findall(r'^<<"DAG", "(.*)">>$', r.out, re.M)
+        if len(got) < 1000:
+            raise tlc.ModelError("DAG export %s gave only %d graphs:\n%s" % (cfg, len(got), r.out[-1500:]))
+        rep.add_tlc("MC_AStar.tla/" + cfg, r, mode="graph-export")
+        dags += [json.loads(g) for g in got]
+    if quick:        # a seeded third of the 4-node graphs per run; thorough runs them all
+        dags = [g for i, g in enumerate(dags) if (i + ctx.seed) % 3 == 0]
+    rep.notes["synthetic_dags_executed"] = len(dags)
+    cfg = {"hmm": os.path.join(sut.REPO, "model", "en-us"), "dict": os.path.join(sut.REPO, "tests", "data", "turtle.dic"),
+           "loglevel": "FATAL"}
+    cases, per = [], 80
+    for c0 in range(0, len(dags), per):
+        s = list(decmatrix.audio_defs()) + ["init " + decmatrix.hx(json.dumps(cfg)),
+                                            "jsgf " + decmatrix.hx("#JSGF V1.0;\ngrammar g;\npublic <s> = go forward ten meters;\n"),
+                                            "start", "feed head 0 -1 i16 0 1", "end"]
+        for gi, links in enumerate(dags[c0:c0 + per]):
+            n = max(l[1] for l in links)
+            sc = SYN_SCORE[(c0 + gi) % len(SYN_SCORE)]
+            sf = [0] + [7 * i + rng.randrange(0, 3) for i in range(1, n)]          # node i+1 starts at sf[i]
+            words = [SYN_WORDS[(i + gi) % len(SYN_WORDS)] for i in range(n)]
+            if gi % 5 == 4 and n >= 3:
+                words[1] = "<sil>"
+            toks = [str(-(gi % 3) * 37), str(n), str(len(links))]
+            for i in range(n):
+                efs = [sf[l[1] - 1] - 1 for l in links if l[0] == i + 1] or [73]
+                toks += [words[i].encode().hex(), str(sf[i]), str(min(efs)), str(max(efs))]
+            for a, b, v in links:
+                toks += [str(a - 1), str(b - 1), str(sc[v]), str(sf[b - 1] - 1)]
+            s += ["synlat " + " ".join(toks), "lattice syn 1", "nbest syn 60"]
+        s.append("free")
+        cases.append(("syn-dags#%d" % (base + c0 // per), s))
+    return cases
+
+
 def run_which(ctx, which):
     rep = ctx.report
     quick = ctx.tier == "quick"
@@ -112,6 +158,7 @@ def run_which(ctx, which):
         cases = [decmatrix.make_case(rng, ctx, i, want) for i in range(n)]
         if which == "C12":
             cases += deep_nbest_cases(rng, 3 if quick else 20, n)
+            cases += synthetic_dag_cases(ctx, rng, quick, n + 100)
     by_id = dict(cases)
     chunks, crashes = decmatrix.run_cases(ctx, drv, cases)
     for eid, why in crashes:
